@@ -1137,8 +1137,16 @@ class NodeIn:
         elif container.isMap():
             return ValueBoolean.fromval(container.hasItem(value))
         elif container.isObject():
-            return ValueBoolean.fromval(container.hasItem(value.value))
+            return ValueBoolean.fromval(
+                value.isString() and container.hasItem(value.value)
+            )
         elif container.isString():
+            if not value.isString():
+                raise CklRuntimeError(
+                    ValueString("ERROR"),
+                    f"Expected string but got {value.type()}",
+                    self.pos,
+                )
             return ValueBoolean.fromval(
                 container.value.find(value.value) != -1
             )
